@@ -10,6 +10,7 @@ struct GenOpts {
     long alloc_K = 0;      // alloc profile: allocator requests of the fault-free run of this configuration
     std::vector<long> bounds; // alloc profile: cumulative caller-workspace usage after each request of a sufficient run
     long lwork_sufficient = 0;
+    long first_call_peak = 0; // alloc profile, two-call configurations: peak caller-workspace usage of the first call in a sufficient run
 };
 
 // Everything about run `seed` of `profile`.  The configuration (matrix, values, options, tunables) is a
